@@ -88,7 +88,8 @@ CLAIMED = {
         'category': 'proof',
         'text': ('Kernel-checked: for every value and writer schedule (splits, Interrupted, Ok(0), failures) the sink after to_writer is a prefix of the encoding, all of it on Ok; a failure or a full fixed buffer after j bytes returns '
                  'that error unchanged (WriteZero/"failed to write whole buffer" for a full buffer) with exactly the first j bytes delivered; a buffer of exactly the right size is filled; object_length equals the length of the encoding '
-                 '(OutOfMemory only past 2^64); for the std write_all contract and the shim. ' + CORR + ' Fixed buffers of every capacity 0..len+1, failure at every offset, splitting schedules, both builds.'),
+                 '(OutOfMemory only past 2^64); for the std write_all contract and the shim; and all of this for an ARBITRARY cut of the byte stream into write_all calls (Properties/C12rechunk.v), so the property does not depend on the serializer\'s chunking - '
+                 'a mismatch under a scheduled writer is re-examined against the generalised model on the implementation\'s own chunking. ' + CORR + ' Fixed buffers of every capacity 0..len+1, failure at every offset, splitting schedules, both builds.'),
         'design_ref': 'DESIGN.md section 5 C12; NOTES-io.md',
         'technique': 'Coq proof (write_all loop invariant over the write trace) + scheduled-writer differential correspondence',
     },
@@ -144,8 +145,9 @@ CLAIMED = {
         'text': ('Kernel-checked on an instrumented transcription of the slice decoder (every with_capacity(cautious(len)), vec![0; min(len, 1 MiB)], resize and push growth recorded as allocation events; size_of a parameter supplied by the harness; '
                  'cautious transcribed with its `as u32` truncation and division) that provably returns the same result as the decoder (C07_erasure): no panic for every type and byte string (C07_no_panic; the division needs 0 < size_of < 2^32, shown necessary by C07_hint_div0); '
                  'cautious(len) * size_of <= max(4096, size_of) (C07_hint); the byte-loop buffer never exceeds max(min(len, 1 MiB), 2 * consumed) (C07_bulk, C07_bulk_requests); for every type of the family (collection elements take >= 1 byte on the wire or are refused as ZST) '
-                 'the largest single request, the number of element decodes and the total requested bytes are bounded by explicit constants + constants * |input| (C07_prefix_alone, C07_work, C07_alloc, C07_consumed). PARTIAL by nature: the real allocator, Vec growth policy, stack depth and aborts are runtime behaviour; '
-                 'C07_alloc\'s constant is loose for nested collections (the tight bound is checked empirically). ' + CORR + ' Counting global allocator, hostile length prefixes (0xFFFFFFFF, 2^31, 2^20+1, 2^20) at every length position, corruptions, random strings up to 64 KiB, in child processes under a memory cap; '
+                 'the largest single request, the number of element decodes and the total requested bytes are bounded by explicit constants + constants * |input| (C07_prefix_alone, C07_work, C07_alloc, C07_consumed), and by TIGHT constants in which the failure constant is additive through nesting because only one element decode can fail '
+                 '(C07_alloc_tight, C07_work_tight: total requested <= F0 + S1 * |input| with e.g. F0 = 1 MiB + 4 KiB, S1 = 101 for Vec<Vec<u8>>; C07_alloc_success: an accepted input costs at most S1 * bytes consumed, never the 1 MiB; C07_tight_le_loose). '
+                 'PARTIAL by nature: the real allocator, Vec growth policy, stack depth and aborts are runtime behaviour. ' + CORR + ' Counting global allocator, hostile length prefixes (0xFFFFFFFF, 2^31, 2^20+1, 2^20) at every length position, corruptions, random strings up to 64 KiB, in child processes under a memory cap; '
                  'oracle: no panic/abort/dead child, max request and peak within stated linear bounds, elements decoded <= |input| + 1.'),
         'design_ref': 'DESIGN.md section 5 C07; NOTES-cost.md',
         'technique': 'Coq proof (instrumented decoder, erasure lemma, weighted-measure induction) + counting-allocator correspondence in capped child processes',
